@@ -240,8 +240,8 @@ def _rebuild_parts(trace, marks):
 def _rebuild_term(trace, marks):
     pre, ops, edited = _rebuild_parts(trace, marks)
     opl = common.coq_list([c04_e2.cq_base_op(t[0]) for t in ops])
-    return (f"(let q := run_xops {c04_e2.cq_xops(pre)} (init_st 3) in "
-            f"cone_ops2_first_bad q {c04_e2.cq_strs(edited)} [] 0 [] q {opl})")
+    return (f"(let q := run_xops2 {c04_e2.cq_xops(pre)} (init_st 3) in "
+            f"cone_ops2_first_bad2 q {c04_e2.cq_strs(edited)} [] 0 [] q {opl})")
 
 
 def _py_cone_edges(dump, op):
@@ -335,7 +335,7 @@ def correspondence(ctx):
             ctx.count("e2:" + k, v)
         tr = [t for t in trace if t[0][0] != "dispatch_error"]
         items = c04_e2.cq_xtrace_items(tr)
-        checks.append(f"check_trace_x 3 {common.coq_list(items)}")
+        checks.append(f"check_trace_x2 3 {common.coq_list(items)}")
         names.append((i, "trace", None))
         ctx.count("e2:cases")
         ctx.count("e2:reached_q", int(ok))
@@ -346,7 +346,7 @@ def correspondence(ctx):
             # pending universe by the real _implied_need column, no job in flight)
             drained = [t for t in trace[:marks["drained"]] if t[0][0] != "dispatch_error"]
             real_ok = not (failed or pending or busy)
-            checks.append(f"Bool.eqb (end_of_phase_b (run_xops {c04_e2.cq_xops(drained)} (init_st 3))) "
+            checks.append(f"Bool.eqb (end_of_phase_b (run_xops2 {c04_e2.cq_xops(drained)} (init_st 3))) "
                           f"{common.coq_bool(real_ok)}")
             names.append((i, "eop", (failed, pending, busy)))
             ctx.count(f"e2:end_of_phase_checks:real_ok={real_ok}")
@@ -378,14 +378,14 @@ def correspondence(ctx):
             ctx.count("e2:rebuild_transactions", marks["rebuild"][1] - marks["rebuild"][0])
         pre = [t for t in trace[:marks["q"]] if t[0][0] != "dispatch_error"]
         ops = c04_e2.cq_xops(pre)
-        qterm = f"(run_xops {ops} (init_st 3))"
+        qterm = f"(run_xops2 {ops} (init_st 3))"
         rehash = c04_e2.cq_hs(_rehash_of_dump(q))
         checks.append(f"quiescent_success_b {qterm}")
         names.append((i, "bridge", None))
         checks.append(f"match dispatchable {qterm} with [] => true | _ => false end")
         names.append((i, "nodispatch", None))
         checks.append(f"let q := {qterm} in unchanged_b q {rehash} && "
-                      f"dump_eqb (dump_of (run_xops (map XOp (startup_ops q [] {rehash}) ++ "
+                      f"dump_eqb (dump_of (run_xops2 (map XOp (startup_ops q [] {rehash}) ++ "
                       f"[XRevert; XOp OpDeleteDetached]) q)) (dump_of q) && "
                       f"match watch_ops q {rehash} with [] => true | _ => false end")
         names.append((i, "cycle", None))
@@ -396,7 +396,7 @@ def correspondence(ctx):
         # dispatch guard: sound for what the real scheduler dispatched (sample to bound the cost)
         for k, label in disp[:: max(1, len(disp) // 5)][:5]:
             pre_d = [t for t in trace[: k + 1] if t[0][0] != "dispatch_error"]
-            checks.append(f"dispatch_guard {common.coq_str(label)} (run_xops {c04_e2.cq_xops(pre_d)} (init_st 3))")
+            checks.append(f"dispatch_guard {common.coq_str(label)} (run_xops2 {c04_e2.cq_xops(pre_d)} (init_st 3))")
             names.append((i, "guard", (k, label)))
             ctx.count("e2:guard_checks")
     ctx.sample({"e2_trace_prefix": [list(map(str, t[:2])) for t in cases[0][2][0][:8]]})
@@ -441,7 +441,7 @@ def correspondence(ctx):
         wit = {"case": i, "ops": [list(map(str, t[:2])) for t in tr]}
         if what == "trace":
             items = c04_e2.cq_xtrace_items(tr)
-            v = common.eval_terms(ctx, "e2diag", c04_e2.HEADER, [f"first_bad_x 0 (init_st 3) {common.coq_list(items)}"])
+            v = common.eval_terms(ctx, "e2diag", c04_e2.HEADER, [f"first_bad_x2 0 (init_st 3) {common.coq_list(items)}"])
             m = re.search(r"Some (\d+)", v[0] or "")
             k = int(m.group(1)) if m else None
             opname = tr[k][0][0] if k is not None else "?"
